@@ -111,8 +111,12 @@ func ParsePatterns(docs ...*ast.CommentGroup) (patterns []string, hasDirective b
 			if c == nil {
 				continue
 			}
-			line := strings.TrimSpace(strings.TrimPrefix(c.Text, "//"))
-			args, ok := ParseDirective(line)
+			// A directive is //go:embed with nothing between the slashes and "go:";
+			// "// go:embed x" is an ordinary comment.
+			if !strings.HasPrefix(c.Text, "//go:embed") {
+				continue
+			}
+			args, ok := ParseDirective(c.Text[len("//"):])
 			if !ok {
 				continue
 			}
@@ -125,14 +129,17 @@ func ParsePatterns(docs ...*ast.CommentGroup) (patterns []string, hasDirective b
 				return nil, hasDirective, err
 			}
 			for _, f := range fields {
-				if uq, err := strconv.Unquote(f); err == nil {
-					patterns = append(patterns, uq)
-				} else {
-					if len(f) > 0 && (f[0] == '"' || f[0] == '`') {
-						return nil, hasDirective, fmt.Errorf("invalid //go:embed quoted pattern %q", f)
-					}
+				// Only Go double-quoted or back-quoted string literals are unquoted;
+				// anything else (including 'x') is a pattern as written.
+				if f[0] != '"' && f[0] != '`' {
 					patterns = append(patterns, f)
+					continue
 				}
+				uq, err := strconv.Unquote(f)
+				if err != nil {
+					return nil, hasDirective, fmt.Errorf("invalid //go:embed quoted pattern %q", f)
+				}
+				patterns = append(patterns, uq)
 			}
 		}
 	}
@@ -181,6 +188,10 @@ func SplitArgs(s string) ([]string, error) {
 			}
 			if !closed {
 				return nil, fmt.Errorf("invalid //go:embed quoted pattern")
+			}
+			// A quoted pattern must be followed by white space or the end of the line.
+			if i < len(s) && s[i] != ' ' && s[i] != '\t' {
+				return nil, fmt.Errorf("invalid //go:embed quoted pattern %q", s[start:])
 			}
 			out = append(out, s[start:i])
 			continue
